@@ -82,7 +82,7 @@ pub fn check_spec(rep: &mut Report, spec: &Spec, seed: u64) {
 
 pub fn run(p: &Params, rep: &mut Report) {
     let mut rng = p.rng(13);
-    let n = p.size(1500, 40_000);
+    let n = p.size(20_000, 300_000);
     for i in 0..n {
         let spec = match i % 10 {
             0..=4 => gen_wellformed(&mut rng, p.thorough),
